@@ -73,7 +73,7 @@ CTimeout == conf.ctimeout
 Registered == {h \in H : HC[h].reasons # {}}
 
 NoCyc == [s |-> [type |-> "none"], reason |-> "none", initial |-> FALSE, sel |-> {}, plan |-> <<>>, np |-> [h \in H |-> NoRec],
-          purge |-> FALSE, fns |-> {}, req |-> [k |-> "none"], fresh |-> 0, ffins |-> <<>>, rv |-> 0, rem |-> {}, gone |-> FALSE, delays |-> {}, skipped |-> FALSE,
+          purge |-> FALSE, inv |-> {}, fns |-> {}, req |-> [k |-> "none"], fresh |-> 0, ffins |-> <<>>, rv |-> 0, rem |-> {}, gone |-> FALSE, delays |-> {}, skipped |-> FALSE,
           wake |-> 0, last |-> [h |-> "none"]]
 FreshMem == [known |-> FALSE, nbl |-> FALSE, fho |-> FALSE, rem |-> {}]
 FreshWk == [exp |-> 0, ctime |-> 0, pr |-> FALSE]
@@ -299,7 +299,7 @@ InvokeWith(h, o) ==
   /\ LET p == cyc.np[h]
          q == After(p, h, o)
          isok == q.st = "succ"
-     IN /\ cyc' = [cyc EXCEPT !.plan = Tail(@), !.np[h] = q,
+     IN /\ cyc' = [cyc EXCEPT !.plan = Tail(@), !.np[h] = q, !.inv = @ \cup {h},
                               !.last = [h |-> h, retry |-> p.r, reason |-> cyc.reason, rv |-> cyc.s.rv,
                                         deleting |-> cyc.s.deleting, blocked |-> Blocked(cyc.s),
                                         wasfinished |-> Finished(cyc.s.prog[h]), recr |-> cyc.s.prog[h].r,
@@ -377,7 +377,8 @@ SrvMerge ==
                                         [] OTHER -> obj.prog[h]]
               o2 == [obj EXCEPT !.prog = newprog, !.lh = IF r.lh # 0 THEN r.lh ELSE @,
                                 !.dummy = IF cyc.s.dummy THEN 0 ELSE @]    \* cleared only if the view showed it
-              changed == o2 # obj
+              \* (a record written after an invocation carries new timestamps: the object changes even if the abstract record is the same)
+              changed == o2 # obj \/ \E h \in cyc.inv : r.prog[h] = "store"
           IN /\ IF changed THEN Commit(o2) ELSE UNCHANGED <<obj, chan>>
              /\ cyc' = [cyc EXCEPT !.fresh = obj'.rv, !.rv = obj'.rv, !.ffins = obj'.fins]
              /\ pc' = "r1done"
